@@ -76,6 +76,16 @@ def run (t : Tier) : Emit Unit := do
       | _ => mkSection 0x40 false (some sh) { nit := some { networkDescriptors := ds, networkID := 7, transportStreams := [] } }
     let (s, bs) := sec
     emit "C13" (parseCase (Spec.unitEncode 0 [bs] 0) (some { pointerField := 0, sections := [s] }) "parse-long-descriptor-loop-in-table")
+  -- (1f) TOT sections (short syntax: section_syntax_indicator 0) whose section_length has each of its upper bits set
+  --      in turn (the header's flag bits sit in the same byte)
+  for n in [1, 2, 3, 4, 5, 9, 17] do
+    let mut ds : List Descriptor := []
+    for i in [0:n] do
+      let body ← liftGen (randBytes (if i = 0 then 210 else 200))
+      ds := ds ++ [({ tag := 0x80 + i, length := body.length, userDefined := body } : Descriptor)]
+    let st ← liftGen genUTC
+    let (s, bs) := mkSection 0x73 false none { tot := some { descriptors := ds, utcTime := st } }
+    emit "C13" (parseCase (Spec.unitEncode 0 [bs] 0) (some { pointerField := 0, sections := [s] }) "parse-TOT-long")
   -- (1c) the writer with several PAT / PMT sections in one unit: every section carries its own CRC
   for _ in [0:10 * t.scale] do
     let n ← liftGen (randRange 2 4)
